@@ -16,9 +16,10 @@ CHECKS = {
          "TLC also closes the rejection universes exhaustively (Good holds with the refusal guard, is violated without it).",
          "TLC model checking + simulation of PyWriter with SlotReject, replayed catch-and-continue into real Streams + TLC trace judging (prefix validity)"),
  "C01": ("model_checking", "6 C01",
+         "State-graph comparison: every reachable idle state x every statement of small slices is executed on real Stream objects, the reachable state sets equal TLC's and every real transition is re-executed by TLC on PyWriter (spec/TraceWriter.tla: same rows, same successor, composite clause Good), so for those slices the model's exhaustive theorem transfers to the code. "
          "TLC closes the composition PyWriter o JellyReader (per-statement invariants Good/Mirrored/TablesBounded/BufBounded) on slice universes, i.e. for histories of any length within each slice; "
          "TLC-simulated behaviours of larger universes are replayed op by op into real Streams (model rows = real rows) and through the whole-sequence entry points; "
-         "every byte string is judged by TLC (TraceReader) and parsed back with pyjelly. Exhaustive per slice, sampled beyond; string-level variety only through three substitution classes.",
+         "every byte string is judged by TLC (TraceReader) and parsed back with pyjelly; long deterministic workloads wrap tables of 128/256/4096 entries. Exhaustive per slice, sampled beyond; string-level variety through four substitution classes (identity, realistic, unicode, odd content).",
          "TLA+ model checking (TLC) of PyWriter o JellyReader + replay of TLC behaviours into real Streams + TLC trace judging of the bytes"),
  "C02": ("model_checking", "6 C02",
          "RDF 1.1 behaviours of PyWriter (TLC simulation) are built as rdflib Graph/Dataset (default, IRI and bnode graph names; plain, language-tagged and typed objects incl. xsd:string and non-canonical lexical forms) and written through Graph.serialize with TripleStream / QuadStream / GraphStream, "
@@ -26,9 +27,10 @@ CHECKS = {
          "The composition PyWriter o JellyReader is closed exhaustively on the TRIPLES/QUADS/GRAPHS slices.",
          "TLC simulation + model checking of PyWriter, replay through the rdflib entry points, TLC trace judging with set semantics"),
  "C03": ("model_checking", "6 C03",
-         "The independent decoder IS the Tier-1 TLA+ reader: every stream the real serializer writes (model-generated inputs, all generic entry points) is decoded by /verif's own codec and validated row by row by TLC, including denotation = input.",
+         "The independent decoder IS the Tier-1 TLA+ reader: every stream the real serializer writes (model-generated inputs, all generic entry points) is decoded by /verif's own codec and validated row by row by TLC, including denotation = input; so is every stream the repository's OWN test suite makes pyjelly write (recorded from outside by a pytest plugin on a scratch copy of the working tree).",
          "TLC trace validation of real serializer output against spec/JellyReader.tla; TLC model checking of PyWriter => reader never errs"),
  "C04": ("model_checking", "6 C04",
+         "Reader state graph: TLC closes JellyProducer in tiny universes and prints every transition (reader state, legal row, reader state', item); the harness walks the graph on a real Decoder, one test per transition (item and projected state equal). "
          "JellyProducer is the nondeterministic generator of exactly the row sequences the Tier-1 reader accepts (any slot/eviction choice, split, explicit-or-zero id, elision or not, early/redundant entries, repeated options, cuts, empty frames, "
          "ids at the top of 4096-entry tables, disabled tables, versions 1-2); TLC simulates it, each behaviour carries its denotation, /verif's codec writes the bytes, and the six parse entry points must return exactly that denotation. Sampled, not exhaustive.",
          "TLC simulation of spec/JellyProducer.tla (Tier-1 producer) replayed as bytes into the real parsers; denotation computed by TLC"),
@@ -37,12 +39,13 @@ CHECKS = {
          "with the TLC-computed denotation as arbiter; corresponding generic/rdflib statement iterators with equal options must serialize to identical bytes.",
          "differential replay of TLC-generated behaviours (JellyProducer, PyWriter) through both integrations, arbitrated by the TLA+ denotation"),
  "C16": ("fault_enumeration", "6 C16",
+         "Reader state graph: for every reachable reader state of tiny universes TLC prints every catalogued illegal next row (confirmed invalid by the TLA+ reader); each is applied to a real Decoder brought into that state and must raise. "
          "One catalogued violation (12 classes) is injected by the producer model after FaultAt rows of an arbitrary legal stream; only rows the Tier-1 reader rejects at that very row qualify. Both integrations' flat parsers are drained item by item: "
          "an exception must be raised and everything yielded before must be the denotation of the earlier rows.",
          "TLC simulation of JellyProducer.Violate (fault injection confirmed invalid by the TLA+ reader) replayed into the real parsers"),
  "C05": ("model_checking", "6 C05",
-         "Finite-state proof per size and rule on the index-canonical quotient model (closed under every next key, hence all histories), transferred to the code by walking the same state graph on real LookupEncoder/LookupDecoder objects: "
-         "state and transition counts equal, transition sets equal for small sizes, every real transition judged by the table contract; long random histories for sizes 8..4096.",
+         "Finite-state proof per size and rule on the index-canonical quotient model (closed under every next key, hence all histories; the concrete-key model PyLookupKeys is checked by TLC to REFINE the quotient), transferred to the code by walking the same state graph on real LookupEncoder/LookupDecoder objects: "
+         "state and transition counts equal, transition sets equal for small sizes, every real transition judged by the table contract; long random histories for sizes 8..4096; end-to-end histories through the serializer (tables of 1-4 slots, statements mixing resident and new keys) judged by TLC.",
          "TLC exhaustive model checking of spec/PyLookup.tla + state-graph comparison on real objects"),
  "C06": ("model_checking", "6 C06",
          "TLC enumerates the complete lattice (3 stream classes x 8 logical types x delimited x frame_size{1,2,250} x {inferred flow, 6 FrameFlow classes} x {1,2} sinks = 2016 points) on spec/PyConfig.tla with invariant NoSilentDrop "
